@@ -317,7 +317,7 @@ def run(facts, rep, ctx):
 
     # ---- split helper table ---------------------------------------------------------------------
     for hname in sorted(helper_bodies):
-        hb = facts.body(hname)
+        hb = facts.ibody(hname, combinators=True)
         if hb is None:
             rep.inconc(R2, "split helper %s has no body" % hname)
             continue
@@ -335,8 +335,11 @@ def run(facts, rep, ctx):
             conds = [c for c in pp.conds]
             empty = None
             for (bb, term, vals, neg, dty) in conds:
-                if term[0] == "call" and term[1].rsplit("::", 1)[-1] == "is_empty":
-                    empty = (vals == (0,)) == neg
+                tt, inv = term, False
+                while tt[0] == "un" and tt[1] == "Not":
+                    tt, inv = tt[2], not inv
+                if tt[0] == "call" and tt[1].rsplit("::", 1)[-1] == "is_empty":
+                    empty = ((vals == (0,)) == neg) != inv
             if err is True:
                 rows.append(("err", None))
                 continue
@@ -349,6 +352,9 @@ def run(facts, rep, ctx):
                 x = strip_refs(x)
                 if x[0] == "call" and x[1] == "std::string::String::new":
                     return "empty"
+                dc = direct_component(x, path_param=1)
+                if dc is not None:
+                    return dc
                 # the component must be the helper's string itself: no trimming / case folding / slicing on the way
                 PASS = ("to_string", "to_owned", "clone", "into", "from", "deref", "branch", "as_str", "as_ref", "borrow")
                 for s in walk(x):
